@@ -438,39 +438,77 @@ func c12PositionRecorded(w *World, r *Report) {
 				return
 			}
 			holder := stripIdentity(lfa.X)
-			// the kind under which the diagnostic is raised
-			kind := "*"
-			forEachInstr(fn, func(b2 *ssa.BasicBlock, i2 ssa.Instruction) {
-				ta, ok := i2.(*ssa.TypeAssert)
-				if !ok || !ta.CommaOk {
-					return
-				}
-				l2, ok := stripIdentity(ta.X).(*ssa.UnOp)
-				if !ok || l2.Op != token.MUL {
-					return
-				}
-				afa, ok := l2.X.(*ssa.FieldAddr)
-				if !ok {
-					return
-				}
-				if tn, f, _, _ := fieldOf(afa); tn != "Field" || f != "Attr" || stripIdentity(afa.X) != holder {
-					return
-				}
-				if ta.Referrers() == nil {
-					return
-				}
-				for _, ref := range *ta.Referrers() {
-					ex, ok := ref.(*ssa.Extract)
-					if !ok || ex.Index != 1 || ex.Referrers() == nil {
-						continue
+			// the kind under which the diagnostic is raised: a checked assertion on holder.Attr that dominates the block - here or,
+			// when the field is a parameter, at every call site
+			var kindAt func(fn *ssa.Function, holder ssa.Value, b *ssa.BasicBlock, depth int) string
+			kindAt = func(fn *ssa.Function, holder ssa.Value, b *ssa.BasicBlock, depth int) string {
+				kind := "*"
+				forEachInstr(fn, func(b2 *ssa.BasicBlock, i2 ssa.Instruction) {
+					ta, ok := i2.(*ssa.TypeAssert)
+					if !ok || !ta.CommaOk {
+						return
 					}
-					for _, r3 := range *ex.Referrers() {
-						if iff, ok := r3.(*ssa.If); ok && edgeDominates(iff.Block(), 0, b) {
-							kind = modelTypeName(ta.AssertedType)
+					l2, ok := stripIdentity(ta.X).(*ssa.UnOp)
+					if !ok || l2.Op != token.MUL {
+						return
+					}
+					afa, ok := l2.X.(*ssa.FieldAddr)
+					if !ok {
+						return
+					}
+					if tn, f, _, _ := fieldOf(afa); tn != "Field" || f != "Attr" || stripIdentity(afa.X) != holder {
+						return
+					}
+					if ta.Referrers() == nil {
+						return
+					}
+					for _, ref := range *ta.Referrers() {
+						ex, ok := ref.(*ssa.Extract)
+						if !ok || ex.Index != 1 || ex.Referrers() == nil {
+							continue
+						}
+						for _, r3 := range *ex.Referrers() {
+							if iff, ok := r3.(*ssa.If); ok && edgeDominates(iff.Block(), 0, b) {
+								kind = modelTypeName(ta.AssertedType)
+							}
 						}
 					}
+				})
+				if kind != "*" || depth > 2 {
+					return kind
 				}
-			})
+				p, isParam := holder.(*ssa.Parameter)
+				if !isParam {
+					return kind
+				}
+				idx := -1
+				for i, q := range fn.Params {
+					if q == p {
+						idx = i
+					}
+				}
+				agreed := ""
+				for _, g := range fns {
+					forEachInstr(g, func(b3 *ssa.BasicBlock, i3 ssa.Instruction) {
+						c, ok := i3.(ssa.CallInstruction)
+						if !ok || c.Common().StaticCallee() != fn || idx < 0 || idx >= len(c.Common().Args) {
+							return
+						}
+						k := kindAt(g, stripIdentity(c.Common().Args[idx]), b3, depth+1)
+						switch {
+						case agreed == "":
+							agreed = k
+						case agreed != k:
+							agreed = "*"
+						}
+					})
+				}
+				if agreed != "" {
+					return agreed
+				}
+				return kind
+			}
+			kind := kindAt(fn, holder, b, 0)
 			if seenKind[kind] {
 				return
 			}
